@@ -507,6 +507,14 @@ func negativeFieldCasesLocal() []*Case {
 		return sb.String()
 	}
 	return []*Case{
+		// the structs live in the interface's own package, the code is emitted into ./generated: unexported source fields
+		// are out of reach there, whatever names them
+		mk("map_unexported_source_ownpkg", "map names an unexported source field of a struct in the interface's package (output elsewhere)",
+			"type In struct{ A int; secret string }\ntype Out struct{ A int; Token string }\n", iface("map secret Token")),
+		mk("map_path_unexported_source_ownpkg", "map path ends in an unexported field of a struct in the interface's package (output elsewhere)",
+			"type In struct{ A int; N Hidden }\ntype Hidden struct{ secret string }\ntype Out struct{ A int; Token string }\n", iface("map N.secret Token")),
+		mk("matchignorecase_unexported_source_ownpkg", "the only case-insensitive candidate is unexported and the output lives elsewhere",
+			"type In struct{ A int; token string }\ntype Out struct{ A int; Token string }\n", iface("matchIgnoreCase")),
 		mk("ignore_unknown", "ignore names a field the target does not have", base, iface("ignore Nope")),
 		mk("map_unknown_target", "map names a target field that does not exist", base, iface("map A Nope")),
 		mk("map_unknown_source", "map names a source field that does not exist", base, iface("map Nope A")),
